@@ -266,7 +266,8 @@ class SNAXStreamer(ABC):
             # temporal strides
             result.extend([f"{name}_tstride_{i}" for i in range(streamer.temporal_dim)])
             # options
-            result.extend([f"{name}_enabled_chan"])
+            if any(isinstance(opt, HasChannelMask) for opt in streamer.opts):
+                result.append(f"{name}_enabled_chan")
             if any(isinstance(opt, HasByteMask) for opt in streamer.opts):
                 result.append(f"{name}_enabled_byte")
             result.extend([f"{name}_bypass"])
